@@ -463,8 +463,9 @@ HARNESSES += [
       'which: int, ui: int, pi: int, ri: int, inline: Optional[int], a: int, b: int, flag1: bool, flag2: bool, flag3: bool',
       pre=['0 <= ui < %d and 0 <= pi < %d and 0 <= ri < %d and 0 <= a <= 2 and 0 <= b <= 2' % (len(_URLS), len(_PARENTS), len(_ROOTS)),
            'inline is None or 0 <= inline <= 1'],
-      parts=[{'tag': n, 'fix': {'which': str(i)}} for i, n in enumerate(_FILTER_NAMES)],
-      timeout={'quick': 150, 'thorough': 600},
+      parts=[{'tag': n, 'fix': {'which': str(i)}} for i, n in enumerate(_FILTER_NAMES) if n != 'SpanHosts']
+      + [{'tag': 'SpanHosts_%d' % k, 'fix': {'which': str(_FILTER_NAMES.index('SpanHosts'))}, 'pre': ['%d <= ui <= %d' % (k, k + 3)]} for k in range(0, len(_URLS), 4)],
+      timeout={'quick': 200, 'thorough': 600},
       samples=[(i, 1, 1, 1, None, 1, 1, False, True, False) for i in range(10)],
       need=['pass', 'fail'],
       funcs=['wpull/urlfilter.py:%sFilter.test' % n for n in _FILTER_NAMES] + ['wpull/url.py:is_subdir', 'wpull/url.py:schemes_similar'],
